@@ -126,7 +126,7 @@ func (p *Proof) IsValid(public Public) bool {
 	}
 
 	N := public.N.Big()
-	if big.Jacobi(p.W, N) != -1 {
+	if p.W == nil || big.Jacobi(p.W, N) != -1 {
 		return false
 	}
 
@@ -235,11 +235,8 @@ func (p *Proof) Verify(public Public, hash *hash.Hash, pl *pool.Pool) bool {
 		return false
 	}
 
-	if big.Jacobi(p.W, n) != -1 {
-		return false
-	}
-
-	if !arith.IsValidBigModN(n, p.W) {
+	// all values, including every response, must be present and in range before they are used
+	if !p.IsValid(public) {
 		return false
 	}
 
